@@ -226,6 +226,7 @@ Section PrintSpec.
   Definition print_setting (w : world) (op : options) (data : bytes) (toks : list ltoken) : Prop :=
     w_sink w = None
     /\ op_log op <> []
+    /\ op_log op <> dev_null      (* the null device opens as the empty file whatever the world says (fix F24) *)
     /\ lookup_fs w (op_log op) = Some (FFile data)
     /\ lookup (op_log op) (w_read_fault w) = None
     /\ tokenize (op_fmt op) = Some toks.
